@@ -181,7 +181,16 @@ func gzipOf(inner []byte) []byte {
 // a gzip stream.  Value or error, never a panic.
 func H_C15_gzip(W, packed int) {
 	var payload []byte
-	if packed != 0 {
+	if packed == 2 {
+		// a gzip stream with a valid header whose body or trailer is damaged (cut short, wrong checksum)
+		inner := verifrt.Bytes(4 * verifrt.Len(W))
+		if verifrt.Symbolic() {
+			payload = append([]byte("GZ0:"), inner...)
+		} else {
+			payload = gzipOf(inner)
+			payload[len(payload)-5] ^= 0xff
+		}
+	} else if packed != 0 {
 		inner := verifrt.Bytes(4 * verifrt.Len(W))
 		payload = gzipOf(inner)
 	} else {
@@ -191,11 +200,15 @@ func H_C15_gzip(W, packed int) {
 	verifrt.MapCandidates(candidatesFor(0x3072cfa1))
 	verifrt.AllocSampling(3, 2)
 	var err error
-	pn := verifrt.Catch(func() { _, err = tl.DecodeUnknownObject(b) })
+	ended := true
+	pn := verifrt.Catch(func() {
+		ended = verifrt.Terminates(3000000, func() { _, err = tl.DecodeUnknownObject(b) })
+	})
 	if pn {
 		verifrt.Note("panic: " + verifrt.PanicMsg())
 	}
 	verifrt.Assert(!pn, "gzip-arbitrary-no-panic")
+	verifrt.Assert(ended, "gzip-decoding-terminates")
 	if !pn && packed == 0 {
 		_ = err
 	}
